@@ -154,7 +154,7 @@ func genPrice(rt *rapid.T) uint64 {
 // genDevParams draws Min/MaxDeviationBasisPoint. A feed's threshold is max(MaxDev/powerFactor, MinDev) with power
 // factors 1..12, so uniform draws over 1..3000 give thresholds all over the range, most of them not round numbers.
 func genDevParams(rt *rapid.T) (minDev, maxDev int64) {
-	switch gen.Pick(rt, "devk", 20, 45, 20, 15) {
+	switch gen.Pick(rt, "devk", 15, 25, 45, 15) {
 	case 0: // the round values of the shipped configuration and of the existing tests
 		minDev = gen.OneOf[int64](rt, "mindev", 1, 5, 50, 50, 100)
 		maxDev = minDev * gen.OneOf[int64](rt, "devmul", 1, 2, 6, 30)
@@ -166,7 +166,7 @@ func genDevParams(rt *rapid.T) (minDev, maxDev int64) {
 		minDev = gen.OneOf[int64](rt, "mindevb", 1, 49, 50, 51, 2999, 3000)
 	}
 	if maxDev == 0 {
-		switch gen.Pick(rt, "maxdevk", 30, 50, 20) {
+		switch gen.Pick(rt, "maxdevk", 12, 63, 25) {
 		case 0:
 			maxDev = minDev // every feed has the threshold MinDev
 		case 1:
@@ -215,7 +215,7 @@ func genLoop(rt *rapid.T) loopCase {
 	c.ABTD = gen.OneOf[int64](rt, "abtd", 10, 30, 60, 60)
 	c.MinDev, c.MaxDev = genDevParams(rt)
 	c.UpdEvery = int64(gen.Range(rt, "upd", 15, 150))
-	n := rapid.IntRange(1, 6).Draw(rt, "nsig")
+	n := gen.OneOf(rt, "nsig", 1, 2, 3, 3, 4, 4, 5, 6)
 	anyIn := false
 	for i := 0; i < n; i++ {
 		s := sigSpec{
@@ -273,6 +273,16 @@ func genLoop(rt *rapid.T) loopCase {
 			}
 		}
 		c.Events = append(c.Events, e)
+	}
+	// every signal gets moves of exactly its threshold (two-phase, see applyEvent "exact"), spread over the history
+	for i := 0; i < n; i++ {
+		for j, m := 0, gen.Range(rt, "nexact", 1, 3); j < m; j++ {
+			e := evt{At: gen.Range(rt, "xat", 0, c.Steps-1), Sig: i, Kind: "exact", Delta: gen.OneOf(rt, "xd", 0, 0, 0, 0, 0, -1, 1)}
+			if gen.Chance(rt, "xdir", 1, 2) {
+				e.Dir = -1
+			}
+			c.Events = append(c.Events, e)
+		}
 	}
 	sort.SliceStable(c.Events, func(i, j int) bool { return c.Events[i].At < c.Events[j].At })
 	for i, k := 0, rapid.IntRange(1, 6).Draw(rt, "nblockpat"); i < k; i++ {
